@@ -32,6 +32,7 @@ INITS = [
     [["k", "str", ["b", "a", "b"]], ["v", "b1", [True, False, True]]],
     [["a", "f8", [None, None]], ["s", "str", [None, None]]],
     [["u", "U", ["a", None, "b"]], ["o", "obj", [None, 2, 1]], ["t", "us", ["2020-02-29T23:59:59.999999", None, "1970-01-01T00:00:00"]]],
+    [["d", "td", ["3", None, "1"]], ["w", "u1", [200, 0, 5]], ["s", "str", [V.LONG_B, V.LONG_A, None]]],
 ]
 
 BUILTIN = None
